@@ -32,6 +32,7 @@ CONSTANTS Kinds,            \* subset of {"rm", "rcm"}
                             \* | "closeNonAtomic" (Close looks at closeCh and closes it in two steps instead of the closed CAS)
                             \* | "noFatalIfNonPositive" (a configured grace period <= 0 does not install the fatal action)
                             \* | "filterCloserCanceled" (closer errors that are / wrap Canceled are dropped like runner errors)
+                            \* | "runCheckThenSet" (RunnerManager.Run reads the running flag and sets it in two steps)
 
 VARIABLES kind, nr, nc, grace,                  \* configuration (grace: configured period in ticks, -1: none)
           now,
@@ -44,10 +45,11 @@ VARIABLES kind, nr, nc, grace,                  \* configuration (grace: configu
           cpc, cres, gpc, garm, ccnt, cerrs,    \* closer goroutines, grace closer, collection loop (closer.go:180-194)
           retErr,
           apc, kpc, nrun,                       \* AddCloser calls, Close calls, Run calls
+          rpass,                                \* defect "runCheckThenSet": Run calls that read running = FALSE and did not set it yet
           c
 vars == <<kind, nr, nc, grace, now, running, closing, closeCh, stopped, closeFS, lockRun, pcan, ctx, mrunning, rl, apr,
           rpc, hpc, icnt, ierrs, opc, runid, nearly, nloop, regs, cpc, cres, gpc, garm, ccnt, cerrs,
-          retErr, apc, kpc, nrun, c>>
+          retErr, apc, kpc, nrun, rpass, c>>
 
 RECURSIVE FeedAll(_, _)
 FeedAll(cc, evs) == IF evs = <<>> THEN cc ELSE FeedAll(CNext(cc, Head(evs)), Tail(evs))
@@ -84,7 +86,7 @@ Init ==
   /\ retErr = <<>>
   /\ apc = [j \in (nc + 1)..(nc + MaxLate) |-> "idle"]
   /\ kpc = [k \in 1..MaxClose |-> "idle"]
-  /\ nrun = 0
+  /\ nrun = 0 /\ rpass = 0
   /\ c = Feed(CReset([kind |-> kind, G |-> grace, pdl |-> -1,
                       nr |-> nr + 1, nc |-> nc + MaxLate, r0 |-> nr, nruns |-> 2, ncl |-> MaxClose]),
               [x \in 1..(2 * nc) |-> IF x % 2 = 1 THEN [ev |-> "addcloser.call", j |-> (x + 1) \div 2, now |-> 0]
@@ -103,18 +105,36 @@ SkipNow == Defect = "skipIfCtxDone" /\ pcan
 RunCall ==
   /\ nrun < 2
   /\ nrun' = nrun + 1
-  /\ IF ~running
-       THEN /\ running' = TRUE /\ runid' = nrun + 1
-            /\ nearly' = Len(regs) + GraceN
-            /\ c' = Feed(c, <<E("runcall") @@ [id |-> nrun + 1], E("runstarted")>>)
-            /\ IF kind = "rm" /\ SkipNow THEN opc' = "innerskip" /\ mrunning' = TRUE /\ UNCHANGED <<rpc, ctx, hpc>>
-               ELSE IF kind = "rm" THEN opc' = "inner" /\ StartRunners /\ hpc' = hpc
-                              ELSE opc' = "spawn" /\ UNCHANGED <<mrunning, rpc, ctx, hpc>>
-       ELSE /\ c' = Feed(c, <<E("runcall") @@ [id |-> nrun + 1],
-                              E("runreturn") @@ [id |-> nrun + 1, rejected |-> TRUE, errs |-> <<>>]>>)
-            /\ UNCHANGED <<running, opc, runid, rpc, hpc, ctx, nearly, mrunning>>
+  /\ IF Defect = "runCheckThenSet" /\ kind = "rm" /\ ~running THEN
+       /\ rpass' = rpass + 1                     \* read the flag; the store and everything else follow in RunStore
+       /\ c' = Feed(c, <<E("runcall") @@ [id |-> nrun + 1]>>)
+       /\ UNCHANGED <<running, opc, runid, rpc, hpc, ctx, nearly, mrunning>>
+     ELSE IF ~running THEN
+       /\ rpass' = rpass
+       /\ running' = TRUE /\ runid' = nrun + 1
+       /\ nearly' = Len(regs) + GraceN
+       /\ c' = Feed(c, <<E("runcall") @@ [id |-> nrun + 1], E("runstarted")>>)
+       /\ IF kind = "rm" /\ SkipNow THEN opc' = "innerskip" /\ mrunning' = TRUE /\ UNCHANGED <<rpc, ctx, hpc>>
+          ELSE IF kind = "rm" THEN opc' = "inner" /\ StartRunners /\ hpc' = hpc
+                         ELSE opc' = "spawn" /\ UNCHANGED <<mrunning, rpc, ctx, hpc>>
+     ELSE
+       /\ rpass' = rpass
+       /\ c' = Feed(c, <<E("runcall") @@ [id |-> nrun + 1],
+                         E("runreturn") @@ [id |-> nrun + 1, rejected |-> TRUE, errs |-> <<>>]>>)
+       /\ UNCHANGED <<running, opc, runid, rpc, hpc, ctx, nearly, mrunning>>
   /\ UNCHANGED <<kind, nr, nc, grace, rl, apr, now, closing, closeCh, stopped, closeFS, lockRun, pcan, icnt, ierrs, nloop, regs,
                  cpc, cres, gpc, garm, ccnt, cerrs, retErr, apc, kpc>>
+
+(* defect "runCheckThenSet" only: a Run that found the flag clear sets it and starts the runners - again, if another *)
+(* Run got in between                                                                                               *)
+RunStore ==
+  /\ rpass > 0 /\ rpass' = rpass - 1
+  /\ running' = TRUE /\ runid' = nrun /\ opc' = "inner" /\ hpc' = hpc /\ icnt' = 0
+  /\ mrunning' = TRUE /\ ctx' = pcan
+  /\ rpc' = [i \in DOMAIN rpc |-> IF \E x \in DOMAIN rl : rl[x] = i THEN "spawned" ELSE rpc[i]]
+  /\ c' = Feed(c, <<E("runstarted")>>)
+  /\ UNCHANGED <<kind, nr, nc, grace, rl, apr, now, closing, closeCh, stopped, closeFS, lockRun, pcan, ierrs, nearly, nloop, regs,
+                 cpc, cres, gpc, garm, ccnt, cerrs, retErr, apc, kpc, nrun>>
 
 (* closer.go:161-176: add the runner that waits on closeCh when there is at least one runner, then the spawned      *)
 (* goroutine wins the inner manager's CAS (runner.go:59) and starts the runners that are in the slice now            *)
@@ -123,21 +143,21 @@ InnerStart ==
   /\ IF SkipNow THEN opc' = "innerskip" /\ mrunning' = TRUE /\ hpc' = "none" /\ UNCHANGED <<rpc, ctx>>
      ELSE /\ opc' = "inner" /\ StartRunners
           /\ hpc' = IF Len(rl) > 0 THEN "run" ELSE "none"
-  /\ UNCHANGED <<kind, nr, nc, grace, rl, apr, now, running, closing, closeCh, stopped, closeFS, lockRun, pcan, icnt, ierrs,
+  /\ UNCHANGED <<rpass, kind, nr, nc, grace, rl, apr, now, running, closing, closeCh, stopped, closeFS, lockRun, pcan, icnt, ierrs,
                  runid, nearly, nloop, regs, cpc, cres, gpc, garm, ccnt, cerrs, retErr, apc, kpc, nrun, c>>
 
 RunnerBegin(i) ==
   /\ rpc[i] = "spawned"
   /\ rpc' = [rpc EXCEPT ![i] = "run"]
   /\ c' = Feed(c, <<E("runnerstart") @@ [i |-> i]>>)
-  /\ UNCHANGED <<kind, nr, nc, grace, mrunning, rl, apr, now, running, closing, closeCh, stopped, closeFS, lockRun, pcan, ctx, hpc, icnt, ierrs,
+  /\ UNCHANGED <<rpass, kind, nr, nc, grace, mrunning, rl, apr, now, running, closing, closeCh, stopped, closeFS, lockRun, pcan, ctx, hpc, icnt, ierrs,
                  opc, runid, nearly, nloop, regs, cpc, cres, gpc, garm, ccnt, cerrs, retErr, apc, kpc, nrun>>
 
 SeesCancel(i) ==
   /\ rpc[i] = "run" /\ ctx
   /\ rpc' = [rpc EXCEPT ![i] = "seen"]
   /\ c' = Feed(c, <<E("seescancel") @@ [i |-> i]>>)
-  /\ UNCHANGED <<kind, nr, nc, grace, mrunning, rl, apr, now, running, closing, closeCh, stopped, closeFS, lockRun, pcan, ctx, hpc, icnt, ierrs,
+  /\ UNCHANGED <<rpass, kind, nr, nc, grace, mrunning, rl, apr, now, running, closing, closeCh, stopped, closeFS, lockRun, pcan, ctx, hpc, icnt, ierrs,
                  opc, runid, nearly, nloop, regs, cpc, cres, gpc, garm, ccnt, cerrs, retErr, apc, kpc, nrun>>
 
 (* the harness lets runner i return cl; runner.go:72-83: the result is filtered, sent, and the context cancelled *)
@@ -151,7 +171,7 @@ ReleaseId(i, cl, id) ==
   /\ ierrs' = IF Reported(cl) THEN Append(ierrs, id) ELSE ierrs
   /\ ctx' = TRUE
   /\ c' = Feed(c, <<E("runnerreturn") @@ [i |-> i, class |-> cl, id |-> IF cl = "canceled" THEN "" ELSE id]>>)
-  /\ UNCHANGED <<kind, nr, nc, grace, mrunning, rl, apr, now, running, closing, closeCh, stopped, closeFS, lockRun, pcan, hpc,
+  /\ UNCHANGED <<rpass, kind, nr, nc, grace, mrunning, rl, apr, now, running, closing, closeCh, stopped, closeFS, lockRun, pcan, hpc,
                  opc, runid, nearly, nloop, regs, cpc, cres, gpc, garm, ccnt, cerrs, retErr, apc, kpc, nrun>>
 Release(i, cl) == ReleaseId(i, cl, RErrId(i, cl))
 
@@ -159,7 +179,7 @@ Release(i, cl) == ReleaseId(i, cl, RErrId(i, cl))
 HiddenRet ==
   /\ hpc = "run" /\ (ctx \/ closeCh)
   /\ hpc' = "done" /\ icnt' = icnt + 1 /\ ctx' = TRUE
-  /\ UNCHANGED <<kind, nr, nc, grace, mrunning, rl, apr, now, running, closing, closeCh, stopped, closeFS, lockRun, pcan, rpc, ierrs,
+  /\ UNCHANGED <<rpass, kind, nr, nc, grace, mrunning, rl, apr, now, running, closing, closeCh, stopped, closeFS, lockRun, pcan, rpc, ierrs,
                  opc, runid, nearly, nloop, regs, cpc, cres, gpc, garm, ccnt, cerrs, retErr, apc, kpc, nrun, c>>
 
 (* runner.go:96 returned; plain manager: that is Run's result *)
@@ -167,7 +187,7 @@ InnerDoneRM ==
   /\ kind = "rm" /\ ((opc = "inner" /\ icnt = NInner) \/ opc = "innerskip")
   /\ opc' = "done"
   /\ c' = Feed(c, <<E("runreturn") @@ [id |-> runid, rejected |-> FALSE, errs |-> ierrs]>>)
-  /\ UNCHANGED <<kind, nr, nc, grace, mrunning, rl, apr, now, running, closing, closeCh, stopped, closeFS, lockRun, pcan, ctx, rpc, hpc, icnt, ierrs,
+  /\ UNCHANGED <<rpass, kind, nr, nc, grace, mrunning, rl, apr, now, running, closing, closeCh, stopped, closeFS, lockRun, pcan, ctx, rpc, hpc, icnt, ierrs,
                  runid, nearly, nloop, regs, cpc, cres, gpc, garm, ccnt, cerrs, retErr, apc, kpc, nrun>>
 
 InnerReady == IF Defect = "closersEarly" THEN icnt >= 1 \/ NInner = 0 ELSE icnt = NInner
@@ -180,14 +200,14 @@ StartClosing ==
   /\ cpc' = [j \in DOMAIN cpc |-> IF \E x \in DOMAIN regs : regs[x] = j THEN "spawned" ELSE cpc[j]]
   /\ gpc' = IF Installed THEN "spawned" ELSE "none"
   /\ closeFS' = (closeFS \/ (ReleaseBeforeStart /\ nloop' = 1))     \* closer.go: if len(c.closers) == 1 { close(...) }
-  /\ UNCHANGED <<kind, nr, nc, grace, mrunning, rl, apr, now, running, closeCh, stopped, pcan, ctx, rpc, hpc, icnt, ierrs,
+  /\ UNCHANGED <<rpass, kind, nr, nc, grace, mrunning, rl, apr, now, running, closeCh, stopped, pcan, ctx, rpc, hpc, icnt, ierrs,
                  runid, nearly, regs, cres, garm, ccnt, cerrs, retErr, apc, kpc, nrun, c>>
 
 CloserBegin(j) ==
   /\ cpc[j] = "spawned"
   /\ cpc' = [cpc EXCEPT ![j] = "run"]
   /\ c' = Feed(c, <<E("closerstart") @@ [j |-> j]>>)
-  /\ UNCHANGED <<kind, nr, nc, grace, mrunning, rl, apr, now, running, closing, closeCh, stopped, closeFS, lockRun, pcan, ctx, rpc, hpc, icnt, ierrs,
+  /\ UNCHANGED <<rpass, kind, nr, nc, grace, mrunning, rl, apr, now, running, closing, closeCh, stopped, closeFS, lockRun, pcan, ctx, rpc, hpc, icnt, ierrs,
                  opc, runid, nearly, nloop, regs, cres, gpc, garm, ccnt, cerrs, retErr, apc, kpc, nrun>>
 
 CErrId(j, cl) == CASE cl = "err" -> KId[j] [] cl = "kcanceled" -> KCId[j] [] cl = "kraw" -> "canceled" [] OTHER -> ""
@@ -196,56 +216,56 @@ CloserReleaseId(j, cl, id) ==
   /\ cpc' = [cpc EXCEPT ![j] = "sent"]
   /\ cres' = [cres EXCEPT ![j] = IF Defect = "filterCloserCanceled" /\ cl \in {"kcanceled", "kfmt", "kraw"} THEN "" ELSE id]
   /\ c' = Feed(c, <<E("closerreturn") @@ [j |-> j, class |-> cl, id |-> id]>>)
-  /\ UNCHANGED <<kind, nr, nc, grace, mrunning, rl, apr, now, running, closing, closeCh, stopped, closeFS, lockRun, pcan, ctx, rpc, hpc, icnt, ierrs,
+  /\ UNCHANGED <<rpass, kind, nr, nc, grace, mrunning, rl, apr, now, running, closing, closeCh, stopped, closeFS, lockRun, pcan, ctx, rpc, hpc, icnt, ierrs,
                  opc, runid, nearly, nloop, regs, gpc, garm, ccnt, cerrs, retErr, apc, kpc, nrun>>
 CloserRelease(j, cl) == CloserReleaseId(j, cl, CErrId(j, cl))
 
 (* the grace-period closer - closer.go:83-94 *)
 GraceBegin ==
   /\ gpc = "spawned" /\ gpc' = "timing" /\ garm' = now
-  /\ UNCHANGED <<kind, nr, nc, grace, mrunning, rl, apr, now, running, closing, closeCh, stopped, closeFS, lockRun, pcan, ctx, rpc, hpc, icnt, ierrs,
+  /\ UNCHANGED <<rpass, kind, nr, nc, grace, mrunning, rl, apr, now, running, closing, closeCh, stopped, closeFS, lockRun, pcan, ctx, rpc, hpc, icnt, ierrs,
                  opc, runid, nearly, nloop, regs, cpc, cres, ccnt, cerrs, retErr, apc, kpc, nrun, c>>
 GraceFire ==
   /\ gpc = "timing" /\ now >= garm + grace /\ (GraceRecheck => ~closeFS)
   /\ gpc' = "sent"
   /\ c' = Feed(c, <<E("fatal")>>)
-  /\ UNCHANGED <<kind, nr, nc, grace, mrunning, rl, apr, now, running, closing, closeCh, stopped, closeFS, lockRun, pcan, ctx, rpc, hpc, icnt, ierrs,
+  /\ UNCHANGED <<rpass, kind, nr, nc, grace, mrunning, rl, apr, now, running, closing, closeCh, stopped, closeFS, lockRun, pcan, ctx, rpc, hpc, icnt, ierrs,
                  opc, runid, nearly, nloop, regs, cpc, cres, garm, ccnt, cerrs, retErr, apc, kpc, nrun>>
 GraceRelease ==
   /\ gpc = "timing" /\ closeFS
   /\ gpc' = "sent"
-  /\ UNCHANGED <<kind, nr, nc, grace, mrunning, rl, apr, now, running, closing, closeCh, stopped, closeFS, lockRun, pcan, ctx, rpc, hpc, icnt, ierrs,
+  /\ UNCHANGED <<rpass, kind, nr, nc, grace, mrunning, rl, apr, now, running, closing, closeCh, stopped, closeFS, lockRun, pcan, ctx, rpc, hpc, icnt, ierrs,
                  opc, runid, nearly, nloop, regs, cpc, cres, garm, ccnt, cerrs, retErr, apc, kpc, nrun, c>>
 
 (* the collection loop - closer.go:187-194 *)
 NeedClose == opc = "collect" /\ ~closeFS /\ nloop >= 1 /\ ccnt = nloop - 1 /\ (Defect = "releaseLate" => ccnt >= 1)
 CloseFSAct ==
   /\ NeedClose /\ closeFS' = TRUE
-  /\ UNCHANGED <<kind, nr, nc, grace, mrunning, rl, apr, now, running, closing, closeCh, stopped, lockRun, pcan, ctx, rpc, hpc, icnt, ierrs,
+  /\ UNCHANGED <<rpass, kind, nr, nc, grace, mrunning, rl, apr, now, running, closing, closeCh, stopped, lockRun, pcan, ctx, rpc, hpc, icnt, ierrs,
                  opc, runid, nearly, nloop, regs, cpc, cres, gpc, garm, ccnt, cerrs, retErr, apc, kpc, nrun, c>>
 Recv(j) ==
   /\ opc = "collect" /\ ccnt < nloop /\ ~NeedClose /\ cpc[j] = "sent"
   /\ cpc' = [cpc EXCEPT ![j] = "done"]
   /\ ccnt' = ccnt + 1
   /\ cerrs' = IF cres[j] # "" THEN Append(cerrs, cres[j]) ELSE cerrs
-  /\ UNCHANGED <<kind, nr, nc, grace, mrunning, rl, apr, now, running, closing, closeCh, stopped, closeFS, lockRun, pcan, ctx, rpc, hpc, icnt, ierrs,
+  /\ UNCHANGED <<rpass, kind, nr, nc, grace, mrunning, rl, apr, now, running, closing, closeCh, stopped, closeFS, lockRun, pcan, ctx, rpc, hpc, icnt, ierrs,
                  opc, runid, nearly, nloop, regs, cres, gpc, garm, retErr, apc, kpc, nrun, c>>
 RecvGrace ==
   /\ opc = "collect" /\ ccnt < nloop /\ ~NeedClose /\ gpc = "sent"
   /\ gpc' = "done" /\ ccnt' = ccnt + 1
-  /\ UNCHANGED <<kind, nr, nc, grace, mrunning, rl, apr, now, running, closing, closeCh, stopped, closeFS, lockRun, pcan, ctx, rpc, hpc, icnt, ierrs,
+  /\ UNCHANGED <<rpass, kind, nr, nc, grace, mrunning, rl, apr, now, running, closing, closeCh, stopped, closeFS, lockRun, pcan, ctx, rpc, hpc, icnt, ierrs,
                  opc, runid, nearly, nloop, regs, cpc, cres, garm, cerrs, retErr, apc, kpc, nrun, c>>
 (* closer.go: retErr is set, then the deferred unlock and close(stopped) run; only after that has Run returned to its *)
 (* caller - an AddCloser waiting for the lock or a Close waiting on stopped may get ahead of that                      *)
 Finish ==
   /\ opc = "collect" /\ ccnt = nloop
   /\ opc' = "ret" /\ retErr' = ierrs \o cerrs /\ lockRun' = FALSE /\ stopped' = TRUE
-  /\ UNCHANGED <<kind, nr, nc, grace, mrunning, rl, apr, now, running, closing, closeCh, closeFS, pcan, ctx, rpc, hpc, icnt, ierrs,
+  /\ UNCHANGED <<rpass, kind, nr, nc, grace, mrunning, rl, apr, now, running, closing, closeCh, closeFS, pcan, ctx, rpc, hpc, icnt, ierrs,
                  runid, nearly, nloop, regs, cpc, cres, gpc, garm, ccnt, cerrs, apc, kpc, nrun, c>>
 RunRet ==
   /\ opc = "ret" /\ opc' = "done"
   /\ c' = Feed(c, <<E("runreturn") @@ [id |-> runid, rejected |-> FALSE, errs |-> retErr]>>)
-  /\ UNCHANGED <<kind, nr, nc, grace, mrunning, rl, apr, now, running, closing, closeCh, stopped, closeFS, lockRun, pcan, ctx, rpc, hpc, icnt, ierrs,
+  /\ UNCHANGED <<rpass, kind, nr, nc, grace, mrunning, rl, apr, now, running, closing, closeCh, stopped, closeFS, lockRun, pcan, ctx, rpc, hpc, icnt, ierrs,
                  runid, nearly, nloop, regs, cpc, cres, gpc, garm, ccnt, cerrs, retErr, apc, kpc, nrun>>
 
 (* AddCloser - closer.go: the closing flag is looked at before taking the lock (the verif point addcloser.afterCheck *)
@@ -258,7 +278,7 @@ AddCloserCall(j) ==
      ELSE
        /\ apc' = [apc EXCEPT ![j] = "passed"]
        /\ c' = Feed(c, <<E("addcloser.call") @@ [j |-> j]>>)
-  /\ UNCHANGED <<kind, nr, nc, grace, mrunning, rl, apr, now, running, closing, closeCh, stopped, closeFS, lockRun, pcan, ctx, rpc, hpc, icnt, ierrs,
+  /\ UNCHANGED <<rpass, kind, nr, nc, grace, mrunning, rl, apr, now, running, closing, closeCh, stopped, closeFS, lockRun, pcan, ctx, rpc, hpc, icnt, ierrs,
                  opc, runid, nearly, nloop, regs, cpc, cres, gpc, garm, ccnt, cerrs, retErr, kpc, nrun>>
 AddCloserFinish(j) ==
   /\ apc[j] = "passed" /\ ~lockRun
@@ -266,7 +286,7 @@ AddCloserFinish(j) ==
   /\ IF AtomicAddCloser /\ closing
        THEN /\ c' = Feed(c, <<E("addcloser.ret") @@ [j |-> j, ok |-> FALSE]>>) /\ regs' = regs
        ELSE /\ c' = Feed(c, <<E("addcloser.ret") @@ [j |-> j, ok |-> TRUE]>>) /\ regs' = Append(regs, j)
-  /\ UNCHANGED <<kind, nr, nc, grace, mrunning, rl, apr, now, running, closing, closeCh, stopped, closeFS, lockRun, pcan, ctx, rpc, hpc, icnt, ierrs,
+  /\ UNCHANGED <<rpass, kind, nr, nc, grace, mrunning, rl, apr, now, running, closing, closeCh, stopped, closeFS, lockRun, pcan, ctx, rpc, hpc, icnt, ierrs,
                  opc, runid, nearly, nloop, cpc, cres, gpc, garm, ccnt, cerrs, retErr, kpc, nrun>>
 
 (* Close - closer.go:202-212 *)
@@ -279,7 +299,7 @@ CloseCall(k) ==
             /\ closeCh' = TRUE
             /\ running' = TRUE
             /\ stopped' = (stopped \/ ~running)
-  /\ UNCHANGED <<kind, nr, nc, grace, mrunning, rl, apr, now, closing, closeFS, lockRun, pcan, ctx, rpc, hpc, icnt, ierrs,
+  /\ UNCHANGED <<rpass, kind, nr, nc, grace, mrunning, rl, apr, now, closing, closeFS, lockRun, pcan, ctx, rpc, hpc, icnt, ierrs,
                  opc, runid, nearly, nloop, regs, cpc, cres, gpc, garm, ccnt, cerrs, retErr, apc, nrun>>
 (* defect "closeNonAtomic" only: the call found closeCh open and now closes it - a second close of a channel panics *)
 CloseSecond(k) ==
@@ -289,13 +309,13 @@ CloseSecond(k) ==
             /\ UNCHANGED <<closeCh, running, stopped>>
        ELSE /\ kpc' = [kpc EXCEPT ![k] = "wait"] /\ c' = c
             /\ closeCh' = TRUE /\ running' = TRUE /\ stopped' = (stopped \/ ~running)
-  /\ UNCHANGED <<kind, nr, nc, grace, mrunning, rl, apr, now, closing, closeFS, lockRun, pcan, ctx, rpc, hpc, icnt, ierrs,
+  /\ UNCHANGED <<rpass, kind, nr, nc, grace, mrunning, rl, apr, now, closing, closeFS, lockRun, pcan, ctx, rpc, hpc, icnt, ierrs,
                  opc, runid, nearly, nloop, regs, cpc, cres, gpc, garm, ccnt, cerrs, retErr, apc, nrun>>
 CloseRet(k) ==
   /\ kpc[k] = "wait" /\ (stopped \/ Defect = "noWaitClose")
   /\ kpc' = [kpc EXCEPT ![k] = "done"]
   /\ c' = Feed(c, <<E("closereturn") @@ [id |-> k, errs |-> retErr]>>)
-  /\ UNCHANGED <<kind, nr, nc, grace, mrunning, rl, apr, now, running, closing, closeCh, stopped, closeFS, lockRun, pcan, ctx, rpc, hpc, icnt, ierrs,
+  /\ UNCHANGED <<rpass, kind, nr, nc, grace, mrunning, rl, apr, now, running, closing, closeCh, stopped, closeFS, lockRun, pcan, ctx, rpc, hpc, icnt, ierrs,
                  opc, runid, nearly, nloop, regs, cpc, cres, gpc, garm, ccnt, cerrs, retErr, apc, nrun>>
 
 (* Add - closer.go:100-106 then runner.go:45-53: the closer manager's own check, the inner manager's check, then    *)
@@ -306,13 +326,13 @@ AddRunnerCall(i) ==
   /\ IF (kind = "rcm" /\ Defect # "addNoOuterCheck" /\ running) \/ mrunning
        THEN /\ c' = Feed(c, <<E("addrunner") @@ [i |-> i, ok |-> FALSE]>>) /\ apr' = apr
        ELSE /\ apr' = i /\ c' = c
-  /\ UNCHANGED <<kind, nr, nc, grace, mrunning, rl, now, running, closing, closeCh, stopped, closeFS, lockRun, pcan, ctx, rpc, hpc, icnt, ierrs,
+  /\ UNCHANGED <<rpass, kind, nr, nc, grace, mrunning, rl, now, running, closing, closeCh, stopped, closeFS, lockRun, pcan, ctx, rpc, hpc, icnt, ierrs,
                  opc, runid, nearly, nloop, regs, cpc, cres, gpc, garm, ccnt, cerrs, retErr, apc, kpc, nrun>>
 AddRunnerFinish ==
   /\ apr # 0 /\ ~lockRun
   /\ apr' = 0 /\ rl' = Append(rl, apr)
   /\ c' = Feed(c, <<E("addrunner") @@ [i |-> apr, ok |-> TRUE]>>)
-  /\ UNCHANGED <<kind, nr, nc, grace, mrunning, now, running, closing, closeCh, stopped, closeFS, lockRun, pcan, ctx, rpc, hpc, icnt, ierrs,
+  /\ UNCHANGED <<rpass, kind, nr, nc, grace, mrunning, now, running, closing, closeCh, stopped, closeFS, lockRun, pcan, ctx, rpc, hpc, icnt, ierrs,
                  opc, runid, nearly, nloop, regs, cpc, cres, gpc, garm, ccnt, cerrs, retErr, apc, kpc, nrun>>
 
 (* the context given to Run ends; the inner manager's context is derived from it once that manager runs *)
@@ -320,13 +340,13 @@ ParentCancel ==
   /\ ~pcan
   /\ pcan' = TRUE /\ ctx' = (ctx \/ mrunning)
   /\ c' = Feed(c, <<E("parentcancel")>>)
-  /\ UNCHANGED <<kind, nr, nc, grace, mrunning, rl, apr, now, running, closing, closeCh, stopped, closeFS, lockRun, rpc, hpc, icnt, ierrs,
+  /\ UNCHANGED <<rpass, kind, nr, nc, grace, mrunning, rl, apr, now, running, closing, closeCh, stopped, closeFS, lockRun, rpc, hpc, icnt, ierrs,
                  opc, runid, nearly, nloop, regs, cpc, cres, gpc, garm, ccnt, cerrs, retErr, apc, kpc, nrun>>
 
 (* steps the manager takes on its own; hj: an AddCloser call the harness holds at addcloser.afterCheck (0: none) *)
 InternalExcept(hj) ==
   \/ \E i \in DOMAIN rpc : RunnerBegin(i) \/ SeesCancel(i)
-  \/ InnerStart \/ AddRunnerFinish
+  \/ InnerStart \/ AddRunnerFinish \/ RunStore
   \/ HiddenRet \/ InnerDoneRM \/ StartClosing
   \/ \E j \in DOMAIN cpc : CloserBegin(j) \/ Recv(j)
   \/ GraceBegin \/ GraceFire \/ GraceRelease \/ CloseFSAct \/ RecvGrace \/ Finish \/ RunRet
@@ -351,7 +371,7 @@ Quiescent == ~ENABLED Internal
 (* virtual time advances only when nothing can move (testing/synctest) *)
 Advance(t) ==
   /\ now' = t
-  /\ UNCHANGED <<kind, nr, nc, grace, mrunning, rl, apr, running, closing, closeCh, stopped, closeFS, lockRun, pcan, ctx, rpc, hpc, icnt, ierrs,
+  /\ UNCHANGED <<rpass, kind, nr, nc, grace, mrunning, rl, apr, running, closing, closeCh, stopped, closeFS, lockRun, pcan, ctx, rpc, hpc, icnt, ierrs,
                  opc, runid, nearly, nloop, regs, cpc, cres, gpc, garm, ccnt, cerrs, retErr, apc, kpc, nrun, c>>
 Tick == /\ Quiescent /\ now < MaxT /\ Advance(now + 1)
         /\ gpc = "timing" \/ (grace >= 0 /\ ~Installed /\ opc = "collect")     \* only while the passing of time can matter
@@ -359,7 +379,7 @@ Tick == /\ Quiescent /\ now < MaxT /\ Advance(now + 1)
 Quiesce ==
   /\ Quiescent
   /\ c' = CNext(c, E("q"))
-  /\ UNCHANGED <<kind, nr, nc, grace, mrunning, rl, apr, now, running, closing, closeCh, stopped, closeFS, lockRun, pcan, ctx, rpc, hpc, icnt, ierrs,
+  /\ UNCHANGED <<rpass, kind, nr, nc, grace, mrunning, rl, apr, now, running, closing, closeCh, stopped, closeFS, lockRun, pcan, ctx, rpc, hpc, icnt, ierrs,
                  opc, runid, nearly, nloop, regs, cpc, cres, gpc, garm, ccnt, cerrs, retErr, apc, kpc, nrun>>
 
 Next == Internal \/ Env \/ Tick \/ Quiesce
